@@ -23,16 +23,22 @@
      PageStats / Abs         rust/lance-file/src/previous/writer/statistics.rs (legacy page statistics)
                              and rust/lance/src/io/exec/pushdown_scan.rs (NullableInterval guarantees
                              + datafusion's simplifier)
-     ToZM / ToBloom / Plan   rust/lance-index/src/scalar/expression.rs (query parsers, visit_*;
-                             inexact results are AtMost, never negated, always rechecked)
-     Trigrams / NgSearch     rust/lance-index/src/scalar/ngram.rs
-     Train                   the zone builders' chunking of the training stream
+     ToZM / ToBloom          rust/lance-index/src/scalar/expression.rs (SargableQueryParser,
+                             BloomFilterQueryParser; inexact answers are AtMost, maybe_not refuses to
+                             negate them, the scan rechecks everything it reads with the full filter)
+     Trigrams / NgSearch     rust/lance-index/src/scalar/ngram.rs (tokenizer chain, search)
+     Chunks / Entries        the zone builders' chunking of the training stream
+                             (ZoneMapIndexBuilder::train / BloomFilterIndexBuilder::train, new_map / new_block)
+     Candidates              rust/lance/src/io/exec/filtered_read.rs (apply_index_to_fragment)
 
    Laws (Mode = "laws", evaluated over ALL zones of <= MaxZone cells and all
-   predicates of the grammar): ZoneMapSound, BloomSound, PageStatsSound,
+   predicates of the grammar; invariants LawsC20 / LawsC29): ZoneMapSound,
+   BloomSound, PageStatsSound (+ PageStatsWideningSound for truncated bounds),
    NgramSound.  State machine (Mode = "zone" / "ngram"): fragments are appended,
-   rows deleted, the index is built / optimised, queries run; invariant
-   IndexedScanEqualsFullScan.
+   rows deleted (a fragment without live rows disappears, ids are not reused),
+   the index is built / optimised over the live rows, queries run; invariant
+   IndexedScanEqualsFullScan (every query the machine could run now returns the
+   rows of the full scan).
 
    Deviations (what the code does today where that differs from the design):
      "ZoneRangeFromCounts"    a zone claims [sum of earlier zone lengths, + number of
